@@ -131,6 +131,10 @@ structure TailOut where
   resultWritten : Bool
   deriving DecidableEq, Repr
 
+/-- `Registry.WriteOutputs`: one writer per declared output (in declaration order, then the bin output); it
+    succeeds only if every one of them succeeds — in particular if every declared output was created -/
+def writeOutputsOk (writers : List Bool) : Bool := writers.all id
+
 def execTail (i : TailIn) : TailOut :=
   match i.cmd with
   | .exitNonZero => ⟨.fail, false⟩
